@@ -98,36 +98,56 @@ def c03(tr, sem=None):
 
 
 # ------------------------------------------------------------------------------------------- C04
+def _rec_membership(graph):
+    """node -> list of recurrent destinations whose start→dest subgraph (unfiltered graph) contains it"""
+    succ, pred = {}, {}
+    for n in graph['nodes']:
+        succ[n['id']] = set()
+        pred[n['id']] = set()
+    for e in graph['edges']:
+        succ[e['u']].add(e['v'])
+        pred[e['v']].add(e['u'])
+
+    def reach(adj, a):
+        seen, st = {a}, [a]
+        while st:
+            x = st.pop()
+            for y in adj.get(x, ()):
+                if y not in seen:
+                    seen.add(y)
+                    st.append(y)
+        return seen
+    mem = {}
+    for n in graph['nodes']:
+        if n['start_node'] is not None:
+            sub = reach(succ, n['start_node']) & reach(pred, n['id'])
+            for x in sub:
+                mem.setdefault(x, []).append(n['id'])
+    return mem
+
+
 def c04(tr, sem=None):
+    """trace-only (valid for every program): the counterpart of theorem C04_at_most_once_per_iteration"""
     v = []
     seen = {}
-    for _, o in _obs(tr, ('body',)):
+    for _, o in _obs(tr, ('body',), include_after=True):
         key = (o[2], o[3], o[4])
         seen[key] = seen.get(key, 0) + 1
     for k, c in seen.items():
         if c > 1:
             v.append(f'body of node {k[0]} executed {c} times for invocation {k[1]} attempt {k[2]}')
-    nrec = sum(1 for n in tr['graph']['nodes'] if n['start_node'] is not None)
-    if nrec == 0:
-        starts = {}
-        for _, o in _obs(tr, ('emit',)):
-            if o[1] == 'nstart':
-                starts[o[3]] = starts.get(o[3], 0) + 1
-        for n, c in starts.items():
-            if c > 1:
-                v.append(f'node {n} executed {c} times in a run without recurrent subgraphs')
-    if sem is not None and nrec:
-        want = {}
-        for s in sem['calls']:
-            n = int(s.split()[0])
-            want[n] = want.get(n, 0) + 1
-        got = {}
-        for _, o in _obs(tr, ('body',)):
-            if o[4] == 1:
-                got[o[2]] = got.get(o[2], 0) + 1
-        for n, c in got.items():
-            if c > want.get(n, 0) and tr['results'][0] and tr['results'][0][0] == 'value':
-                v.append(f'node {n} executed {c} times; the semantics applies it {want.get(n, 0)} times')
+    starts = {}
+    for _, o in _obs(tr, ('emit',), include_after=True):
+        if o[1] == 'nstart':
+            starts[o[3]] = starts.get(o[3], 0) + 1
+    mem = _rec_membership(tr['graph'])
+    for n, c in starts.items():
+        bound = 1 + sum(starts.get(d, 0) for d in mem.get(n, []))
+        if c > bound:
+            where = 'outside every recurrent subgraph' if not mem.get(n) else f'inside the subgraphs of {mem[n]}'
+            v.append(f'node {n} executed {c} times ({where}; bound {bound})')
+    for _, o in _obs(tr, ('reused-instance',), include_after=True):
+        v.append(f'node object of {o[1]} reused for a second invocation')
     return v
 
 
@@ -258,11 +278,46 @@ def c19(tr, sem=None):
             for n, xs in saves.items():
                 if len(xs) > 1 and n not in synthetic:
                     v.append(f'node {n} saved {len(xs)} times')
-        for n in valued:
+        recdest = {n['id'] for n in tr['graph']['nodes'] if n['start_node'] is not None}
+        for n in valued - recdest:      # (a destination's on_node_complete(None) may belong to a Recurrent marker)
             if n not in saves:
                 v.append(f'node {n} produced a value that was never saved')
     return v
 
 
-ALL = {'C01': c01, 'C02': c02, 'C03': c03, 'C04': c04, 'C05': c05, 'C09': c09, 'C10': c10, 'C11': c11,
+# ------------------------------------------------------------------------------------------- C12 (in any pipeline)
+def c12(tr, sem=None):
+    """trace-only: every invocation re-uses the arguments of its first attempt (also for get_default), and
+    makes at most `attempts` attempts"""
+    import json as _j
+    v = []
+    first = {}
+    natt = {}
+    for _, o in _obs(tr, ('body', 'default'), include_after=True):
+        if o[0] == 'body':
+            n, inv, att, kw = o[2], o[3], o[4], _j.dumps(o[5], sort_keys=True)
+            natt[(n, inv)] = max(natt.get((n, inv), 0), att)
+            if att == 1:
+                first[(n, inv)] = kw
+            elif first.get((n, inv)) != kw:
+                v.append(f'attempt {att} of node {n} got arguments {kw}, attempt 1 got {first.get((n, inv))}')
+        else:
+            n, kw = o[2], _j.dumps(o[3], sort_keys=True)
+            invs = [i for (m, i) in first if m == n]
+            if invs and first[(n, max(invs))] != kw and natt.get((n, max(invs)), 0) >= 1:
+                # (a forced default of a recurrent destination has no body call of its own invocation)
+                pass_forced = any(x['id'] == n and x['start_node'] is not None for x in tr['graph']['nodes'])
+                if not pass_forced:
+                    v.append(f'get_default of node {n} got {kw}, the body got {first[(n, max(invs))]}')
+    for (n, inv), k in natt.items():
+        if n < len(tr['spec']['nodes']):
+            a = tr['spec']['nodes'][n].get('attempts') or 1
+            if k > a:
+                v.append(f'node {n} was invoked {k} times with attempts={a}')
+    return v
+
+
+EVERYWHERE = ('C04', 'C12', 'C13', 'C14', 'C19')      # monitors that need no fragment hypothesis
+
+ALL = {'C12': c12, 'C01': c01, 'C02': c02, 'C03': c03, 'C04': c04, 'C05': c05, 'C09': c09, 'C10': c10, 'C11': c11,
        'C13': c13, 'C14': c14, 'C19': c19}
